@@ -596,7 +596,36 @@ func c15MidFrameEOF(c *core.Ctx) {
 	inFrame := false
 	for _, a := range fieldAssigns(rd, "Conn.readErr") {
 		if a.Rhs != nil && isPkgVar(info, a.Rhs, "errUnexpectedEOF") && g.GuardedBy(a.Loc, remPos) && g.GuardedBy(a.Loc, eqIOEOF(true)) {
-			inFrame = true
+			// the deciding (innermost) condition is exactly `readRemaining > 0 && readErr == io.EOF`, evaluated after the
+			// remaining count was updated: an extra conjunct (e.g. n == 0) lets a frame that ends together with its last
+			// bytes pass as complete
+			inner := innermostFact(g, a.Loc)
+			exact := false
+			if inner != nil {
+				nRem, nEOF, nOther := 0, 0, 0
+				for _, f := range g.Facts() {
+					if f.Br.B != inner.Br.B || f.Edge != inner.Edge {
+						continue
+					}
+					switch {
+					case remPos(rd, f.Br) != 0:
+						nRem++
+					case eqIOEOF(true)(rd, f.Br) != 0:
+						nEOF++
+					default:
+						nOther++
+					}
+				}
+				exact = nRem == 1 && nEOF == 1 && nOther == 0
+				// and the remaining count it tests is the updated one: setReadRemaining precedes the test
+				for _, sc := range rd.CallsTo(wtSetRem) {
+					cond := core.Loc{B: inner.Br.B, I: len(inner.Br.B.Nodes) - 1}
+					if !g.Dominates(sc.Loc, cond) {
+						exact = false
+					}
+				}
+			}
+			inFrame = exact
 		}
 	}
 	c.Check(R, wtMRRead+"/EOF-inside-frame", rd.Pos(), inFrame, "readErr = errUnexpectedEOF on readRemaining > 0 && readErr == io.EOF")
